@@ -233,6 +233,11 @@ pub fn run(tier: &str) -> i32 {
     djs.push(r#"{"a":[{"b":1,"c":1,"a":1},{"b":2,"a":2}],"b":2,"c":3}"#.to_string());
     djs.push(r#"{"a":[{"b":2,"a":[{"b":1}]}],"b":1}"#.to_string());
     djs.push(r#"{"a":[{"b":[{"c":1},{"c":2}]},{"b":[{"c":2}]}],"b":[{"c":3}],"c":1}"#.to_string());
+    // documents whose keys are spelled in another case than the rules spell them (the keys are then found through the
+    // case conversions, at the head of a query, below it and inside filters): every spelling variant must still agree
+    djs.push(r#"{"A":{"B":1,"C":2},"B":2,"c":1}"#.to_string());
+    djs.push(r#"{"A":[{"B":1,"C":1},{"B":2}],"B":[1,2],"C":{"A":1}}"#.to_string());
+    djs.push(r#"{"a":{"B":1},"A":{"b":2},"b":{"A":{"B":1}}}"#.to_string());
     let n = asts.len();
     let res = crate::par::run(n, rep.seed as u64, crate::par::deadline_secs(if thorough { 3000 } else { 45 }), Acc::new, |k, acc| {
         let f = &asts[k];
